@@ -95,6 +95,9 @@ func GetKeyFromPassword(passwd string, cname types.PrincipalName, realm string, 
 			if err != nil {
 				return key, et, fmt.Errorf("error unmashaling PA Data to PA-ETYPE-INFO2: %v", err)
 			}
+			if len(eti) < 1 {
+				return key, et, fmt.Errorf("PA-ETYPE-INFO contains no entries")
+			}
 			if etypeID != eti[0].EType {
 				et, err = GetEtype(eti[0].EType)
 				if err != nil {
@@ -111,6 +114,9 @@ func GetKeyFromPassword(passwd string, cname types.PrincipalName, realm string, 
 			err := et2.Unmarshal(pa.PADataValue)
 			if err != nil {
 				return key, et, fmt.Errorf("error unmashalling PA Data to PA-ETYPE-INFO2: %v", err)
+			}
+			if len(et2) < 1 {
+				return key, et, fmt.Errorf("PA-ETYPE-INFO2 contains no entries")
 			}
 			if etypeID != et2[0].EType {
 				et, err = GetEtype(et2[0].EType)
